@@ -167,7 +167,7 @@ def channel_full(ch):
 
 def snapshot(tf, with_data=True, scaled=True, with_chunks=False):
     """Comparable snapshot of a TdmsFile (opened with any options)."""
-    snap = {'root': props_snapshot(tf.properties), 'groups': [], 'channels': {}}
+    snap = {'root': props_snapshot(tf.properties) + [('<tdms_version>', getattr(tf, 'tdms_version', None))], 'groups': [], 'channels': {}}
     for g in tf.groups():
         snap['groups'].append((g.name, g.path, props_snapshot(g.properties), [c.name for c in g.channels()]))
         for c in g.channels():
